@@ -156,6 +156,44 @@ Proof.
   unfold abs. cbn. rewrite E. f_equal. exact M1.
 Qed.
 
+(* ------------------------------------------------------------------ the lifecycle table *)
+(* with the contract of the lifecycle module (every published key has exactly one value) the loop body receives
+   exactly one value per key and `get_one().unwrap()` cannot fail *)
+Lemma lc_loop_ok entries : forallb (fun e => bag_single (snd e)) entries = true ->
+  exists vs, lc_loop entries = Ok vs /\ map (fun v => [v]) vs = map snd entries.
+Proof.
+  induction entries as [|[k b] r IH]; cbn [forallb lc_loop map snd]; intros H; [exists []; auto|].
+  apply andb_true_iff in H. destruct H as [Hb Hr].
+  destruct b as [|v [|w b']]; cbn [bag_single] in Hb; try discriminate.
+  destruct (IH Hr) as [vs [E M]]. cbn [get_one hd_error]. rewrite E. cbn [bind].
+  exists (v :: vs). split; [reflexivity|]. cbn [map]. rewrite M. reflexivity.
+Qed.
+
+(* the dependency: ANY table with a key whose bag is empty makes the pass panic (there is no other outcome:
+   the loop has this one panic site and reaches the entry unless it panicked before at the same site) *)
+Lemma lc_loop_empty_bag entries k : In (k, []) entries -> lc_loop entries = Panic site_tick_lc_get_one.
+Proof.
+  induction entries as [|[k' b] r IH]; intros Hin; [destruct Hin|].
+  cbn [lc_loop]. destruct b as [|v b']; cbn [get_one hd_error]; [reflexivity|].
+  destruct Hin as [Hin|Hin]; [discriminate Hin|]. rewrite (IH Hin). reflexivity.
+Qed.
+
+Lemma tick_lcs_ok st t : published_key_single_value t = true -> tick_lcs st t = Ok st.
+Proof.
+  unfold tick_lcs, tick_lcs_fc, published_key_single_value. intros H.
+  destruct (st_fc st) as [fc|]; [|reflexivity].
+  destruct (fc_extracting fc); [reflexivity|]. destruct (fc_paused fc); [reflexivity|].
+  destruct t as [entries|]; [|reflexivity].
+  destruct (lc_loop_ok entries H) as [vs [E _]]. rewrite E. reflexivity.
+Qed.
+
+(* whatever it read, a pass that does not panic leaves the state alone *)
+Lemma tick_lcs_state st t st' : tick_lcs st t = Ok st' -> st' = st.
+Proof.
+  unfold tick_lcs. destruct (st_fc st) as [fc|]; [|intros H; inversion H; reflexivity].
+  destruct (tick_lcs_fc fc t); cbn [bind]; intros H; inversion H; reflexivity.
+Qed.
+
 (* tick never changes what the dispatcher sees, panicking or not *)
 Lemma psnm_view s offset n s1 : process_stream_new_msgs s offset n = Ok s1 -> s_id s1 = s_id s /\ s_is_stream s1 = s_is_stream s.
 Proof.
@@ -278,21 +316,24 @@ Proof.
   destruct (fc_extracting fc); [|rewrite E; auto]. cbn. split; [|auto]. intros [H1 [H2 H3]]. unfold fc_inv. cbn. auto.
 Qed.
 
-Lemma apply_tevents_ok evs : forall st, tick_inv st ->
+Lemma apply_tevents_ok evs : forall st, tick_inv st -> forallb tevent_contract evs = true ->
   exists st', apply_tevents st evs = Ok st' /\ tick_inv st' /\
               abs st' = fold_left spec_event (flat_map (fun e => match e with TDone id => [EvDone id] | _ => [] end) evs) (abs st) /\
               st_next_id st' = st_next_id st.
 Proof.
-  induction evs as [|e r IH]; intros st I; cbn [apply_tevents flat_map fold_left]; [exists st; auto|].
-  destruct e as [now|id|n]; cbn [apply_tevent].
+  induction evs as [|e r IH]; intros st I HC; cbn [apply_tevents flat_map fold_left]; [exists st; auto|].
+  cbn [forallb] in HC. apply andb_true_iff in HC. destruct HC as [HC1 HC2].
+  destruct e as [now|id|n|t]; cbn [apply_tevent].
   - destruct (tick_ok st now I) as [st1 [H1 [I1 [A1 N1]]]]. rewrite H1. cbn [bind app].
-    destruct (IH st1 I1) as [st' [H2 [I2 [A2 N2]]]]. exists st'. rewrite H2, A2, A1, N2, N1. auto.
+    destruct (IH st1 I1 HC2) as [st' [H2 [I2 [A2 N2]]]]. exists st'. rewrite H2, A2, A1, N2, N1. auto.
   - cbn [bind app fold_left].
-    destruct (IH _ (apply_event_inv st (EvDone id) I)) as [st' [H2 [I2 [A2 N2]]]]. exists st'.
+    destruct (IH _ (apply_event_inv st (EvDone id) I) HC2) as [st' [H2 [I2 [A2 N2]]]]. exists st'.
     rewrite H2, A2, apply_event_abs, N2. repeat split; auto.
     unfold apply_event. destruct (st_fc st); reflexivity.
   - cbn [bind app]. destruct (extracted_props st n) as [P1 [P2 P3]].
-    destruct (IH _ (P1 I)) as [st' [H2 [I2 [A2 N2]]]]. exists st'. rewrite H2, A2, P2, N2, P3. auto.
+    destruct (IH _ (P1 I) HC2) as [st' [H2 [I2 [A2 N2]]]]. exists st'. rewrite H2, A2, P2, N2, P3. auto.
+  - cbn [tevent_contract] in HC1. rewrite (tick_lcs_ok st t HC1). cbn [bind app].
+    destruct (IH st I HC2) as [st' [H2 [I2 [A2 N2]]]]. exists st'. rewrite H2, A2, N2. auto.
 Qed.
 
 (* the history the dispatcher model sees *)
@@ -301,18 +342,20 @@ Definition proj_item (i : titem) : item :=
      i_frame := t_frame i; i_orc := t_orc i |}.
 
 Lemma run_loop_ok h : forall st, tick_inv st -> forallb (fun i => not_one_pass_open (t_orc i)) h = true ->
+  forallb (fun i => forallb tevent_contract (t_pre i)) h = true ->
   exists st' ws, run_loop st h = Ok (st', ws) /\ List.length ws = List.length h /\
                  Forall (fun w => exists r : reply, w = [r]) ws /\ tick_inv st' /\
                  abs st' = spec_run (abs st) (map proj_item h) ws.
 Proof.
-  induction h as [|i r IH]; intros st I Hn; cbn [run_loop].
+  induction h as [|i r IH]; intros st I Hn HC; cbn [run_loop].
   - exists st, []. repeat split; auto.
   - cbn [forallb] in Hn. apply andb_true_iff in Hn. destruct Hn as [Hn1 Hn2].
-    destruct (apply_tevents_ok (t_pre i) st I) as [st0 [H0 [I0 [A0 _]]]]. rewrite H0. cbn [bind].
+    cbn [forallb] in HC. apply andb_true_iff in HC. destruct HC as [HC1 HC2].
+    destruct (apply_tevents_ok (t_pre i) st I HC1) as [st0 [H0 [I0 [A0 _]]]]. rewrite H0. cbn [bind].
     destruct (step_one st0 (t_frame i) (t_orc i)) as [st1 [rp H1]]. rewrite H1. cbn [bind fst snd].
     pose proof (step_inv _ _ _ _ _ I0 Hn1 H1) as I1.
     destruct (tick_ok st1 0 I1) as [st2 [H2 [I2 [A2 _]]]]. rewrite H2. cbn [bind].
-    destruct (IH st2 I2 Hn2) as [st' [ws [H3 [L3 [F3 [I3 A3]]]]]]. rewrite H3. cbn [bind fst snd].
+    destruct (IH st2 I2 Hn2 HC2) as [st' [ws [H3 [L3 [F3 [I3 A3]]]]]]. rewrite H3. cbn [bind fst snd].
     exists st', ([rp] :: ws). split; [reflexivity|]. split; [cbn; lia|]. split; [constructor; eauto|]. split; [exact I3|].
     cbn [map spec_run]. rewrite A3, A2. f_equal. unfold spec_item, proj_item. cbn [i_pre].
     rewrite <- A0. exact (step_abs _ _ _ _ _ H1).
@@ -324,10 +367,11 @@ Lemma apply_tevents_abs evs : forall st st', apply_tevents st evs = Ok st' ->
 Proof.
   induction evs as [|e r IH]; intros st st' H; cbn [apply_tevents flat_map fold_left] in *; [inversion H; reflexivity|].
   destruct (apply_tevent st e) as [st1| |] eqn:H1; cbn [bind] in H; try discriminate.
-  rewrite (IH _ _ H). destruct e as [now|id|n]; cbn [apply_tevent] in H1; cbn [app fold_left].
+  rewrite (IH _ _ H). destruct e as [now|id|n|t]; cbn [apply_tevent] in H1; cbn [app fold_left].
   - destruct (tick_abs _ _ _ H1) as [A _]. rewrite A. reflexivity.
   - inversion H1 as [H1']. rewrite <- (apply_event_abs st (EvDone id)). reflexivity.
   - inversion H1 as [H1']. destruct (extracted_props st n) as [_ [P2 _]]. rewrite P2. reflexivity.
+  - rewrite (tick_lcs_state _ _ _ H1). reflexivity.
 Qed.
 
 Lemma run_loop_abs h : forall st st' ws, run_loop st h = Ok (st', ws) -> abs st' = spec_run (abs st) (map proj_item h) ws.
